@@ -57,6 +57,23 @@ def _exc_key(site, e, det):
 
 
 KF_PG = "CosseratRod.interior-xi/velocity-field-interpolated-independently"
+KF_R12 = "CosseratRod.R12-interior-xi/cross-section-basis-not-orthonormal"
+
+
+def _r12_key(subs, xis, rods, g0, joint):
+    """defect model of the R12 finding: a joint is defined on a NON-nodal cross-section of an R12 rod whose nodal directors
+    differ within the element (curved / twisted configuration). The interpolated director triad A_IB(xi) is then not
+    orthonormal, the joint's body-fixed frames are obtained with A_IB^T instead of the inverse (and the default joint basis is
+    A_IB itself), so g(t0, q0) is of the size of the orthonormality defect. Anything larger, or any other rod, is not covered."""
+    worst = 0.0
+    for s_, xi, r in zip([s for s in subs if hasattr(s, "nelement")], [x for x in xis if x is not None], rods):
+        if r["interp"] == "R12" and r["xi_class"] == "interior" and r.get("curved"):
+            A = np.asarray(s_.A_IB(s_.t0 if hasattr(s_, "t0") else 0.0, s_.q0[s_.local_qDOF_P(xi)], xi), dtype=float)
+            arm = 1.0 + float(np.linalg.norm(np.asarray(joint.r_OJ0, dtype=float) - s_.r_OP(0.0, s_.q0[s_.local_qDOF_P(xi)], xi)))
+            worst = max(worst, float(np.abs(A.T @ A - np.eye(3)).max()) * arm)
+    if worst > 0 and np.abs(g0).max() <= 10 * worst:
+        return KF_R12
+    return None
 
 
 def _key_fn(site, J, D, err, det):
@@ -69,9 +86,13 @@ def _key_fn(site, J, D, err, det):
         return None
     if det.get("monitor_kind") != "T":
         return None
-    if det.get("state") == "reference:rigid_field":
+    interior = [r for r in det.get("rods", []) if r["xi_class"] == "interior"]
+    if det.get("state") == "reference:rigid_field" and not any(r.get("curved") for r in interior):
+        # nodal velocities of a rigid motion: on a straight rod the interpolated field IS rigid, the relations must hold.
+        # (On a curved rod the nodal orientations differ, the interpolated B_Omega is not A_IB(xi)^T Omega inside an element:
+        # that is the mechanism of the finding again.)
         return None
-    if any(r["xi_class"] == "interior" for r in det.get("rods", [])):
+    if interior:
         return KF_PG
     return None
 
@@ -88,8 +109,12 @@ def run_case(spec, ctx):
         for k, sk in enumerate(pairing):
             if sk == "rod":
                 from vlib import rodlite
-                rod, xi, rinfo = rodlite.simple_rod(rng, name=f"rod{k}")
+                # 40 %: the rod is defined in a curved, twisted configuration (an arc), so that the cross-section orientation
+                # varies along the rod and inside each element
+                rod, xi, rinfo = rodlite.simple_rod(rng, name=f"rod{k}", curved=bool(rng.random() < 0.4))
                 subs.append(rod); xis.append(xi); rods.append(rinfo)
+                if rinfo["curved"]:
+                    ctx.cls(f"rod:curved:{rinfo['interp']}:xi={rinfo['xi_class']}")
             else:
                 s, _, _, _ = gen.make_subsystem(rng, sk, f"s{k}")
                 subs.append(s); xis.append(None)
@@ -135,7 +160,8 @@ def run_case(spec, ctx):
         if spec.get("far"):
             scale = 1.0 + np.abs(system.q0).max()       # positions enter g linearly here: rounding level is eps*|r|
         if np.abs(g0).max() > 1e-10 * scale:
-            ctx.violation(f"{kind}.g", "joint is not satisfied in the configuration in which it was defined", {**extra, "g0": g0})
+            ctx.violation(f"{kind}.g", "joint is not satisfied in the configuration in which it was defined", {**extra, "g0": g0},
+                          key=_r12_key(subs, xis, rods, g0, joint))
         label = f"{kind}[{pairing[0]},{pairing[1]}]"
         for k in range(4 if rods else 3):
             if k == 0:
